@@ -19,7 +19,7 @@ import z3
 
 from . import core, sums, source
 from .core import ObjV, SymList, MapSeq, LArr, LArr2, HeapArr1, HeapArr2, Unsupported, CheckerError, is_z3, to_z3num, to_real, fresh, conj, disj, neg, ite, NONE
-from .interp import Interp, Obligation, QFact, ForallV, ExistsV, explore, Chooser, _Return, _Raise, Infeasible, concrete_int, is_arr
+from .interp import Interp, Obligation, QFact, ForallV, ExistsV, explore, Chooser, _Return, _Raise, _Continue, Infeasible, concrete_int, is_arr
 
 
 TrackingHeap = core.Heap
@@ -207,6 +207,16 @@ def verify_function(qualname, contract, schema, timeout_ms=10000, contracts=None
         if fi.qualname.endswith(".setter"):
             recv_classes = mod.subclasses(fi.cls)
     path_no = [0]
+    body_stmts = fi.body()
+    frag = contract.get("fragment")
+    if frag is not None:
+        # the contract is on a loop body: the statements of the `for` whose iterable has the given source text, executed
+        # for an arbitrary element (the loop variable is a contract parameter)
+        hits = [n for n in ast.walk(fi.node) if isinstance(n, ast.For) and ast.unparse(n.iter).replace('"', "'") == frag["iter"].replace('"', "'")]
+        if len(hits) != 1:
+            raise Unsupported("fragment: %d loops over %s in %s" % (len(hits), frag["iter"], qualname))
+        body_stmts = hits[0].body
+        rep.fragment = "body of `for %s in %s` (line %d)" % (ast.unparse(hits[0].target), frag["iter"], hits[0].lineno)
 
     def run(ch):
         it = Interp(mod, schema, mode=contract.get("mode", "REAL"), contracts=contracts or {})
@@ -229,6 +239,9 @@ def verify_function(qualname, contract, schema, timeout_ms=10000, contracts=None
                 env[a] = make_param(it, a, params[a])
             else:
                 raise Unsupported("contract for %s gives no kind for parameter %s" % (qualname, a))
+        for a in params:
+            if a not in env:
+                env[a] = make_param(it, a, params[a])  # locals of the enclosing function visible to a fragment
         for gname, gkind in contract.get("ghost_params", {}).items():
             env[gname] = make_param(it, gname, gkind)
         it.func_stack.append(fi.qualname)
@@ -249,8 +262,11 @@ def verify_function(qualname, contract, schema, timeout_ms=10000, contracts=None
         out = PathOutcome()
         body_env = dict(env)
         try:
-            it.exec_block(fi.body(), body_env)
+            it.exec_block(body_stmts, body_env)
             out.kind = "return"
+            out.value = None
+        except _Continue:
+            out.kind = "return"  # fragment = loop body: `continue` ends the iteration normally
             out.value = None
         except _Return as r:
             out.kind = "return"
@@ -381,10 +397,10 @@ def _solver(timeout_ms):
     return s
 
 
-def lemma_facts(assumptions, goal, index_terms, qfacts, timeout_ms, rep=None):
+def lemma_facts(assumptions, goal, index_terms, qfacts, timeout_ms, rep=None, depth=0, only_terms=None):
     """instances of the sum lemmas justified under `assumptions` (side conditions proved for a fresh k)"""
     facts = []
-    apps = sums.atom_apps(list(assumptions) + [goal])
+    apps = sums.atom_apps(list(only_terms) if only_terms is not None else (list(assumptions) + [goal]))
     if not apps:
         return facts
     groups = {}
@@ -425,6 +441,9 @@ def lemma_facts(assumptions, goal, index_terms, qfacts, timeout_ms, rep=None):
             inst = []
             rng = [0 <= k, k < j, atom.guard_at(k, args)]
             t = atom.term_at(k, args)
+            if depth == 0 and sums.atom_apps([t]):
+                # the summand itself contains sums (sum over rows inside a sum over links): one level of nesting
+                inst = lemma_facts(list(assumptions) + kinst + rng, t >= 0, list(index_terms) + [k], qfacts, timeout_ms, rep, depth=1, only_terms=[t])
             if _valid(hyps_base + inst + rng, t >= 0, timeout_ms, rep, key=(akey, argids, j.get_id(), 'ge0', base_ids)):
                 facts.append(z3.Implies(j >= 0, atom.app(j, args) >= 0))
                 # monotone prefixes and element bounds
@@ -468,6 +487,7 @@ def lemma_facts(assumptions, goal, index_terms, qfacts, timeout_ms, rep=None):
 
 
 _side_cache = {}
+_nest_counter = [0]
 
 
 class _BaseSolver:
